@@ -48,6 +48,17 @@ Definition run_cli_op (p : proto) (m : mode) (st : cstate) (op : list (list N)) 
         | None => (err "disc", st)
         end
       else (err "op2", st)
+  | [h; a; d] =>
+      (* disc <shutdown script> <drop budget>: the disconnect future is dropped after that many Pending polls *)
+      if is h "disc" then
+        match parse_list parse_sdev a, parse_budget d with
+        | Some ss, Some bg =>
+            let st0 := mkC (framed st) (rst st) (wio_ st) (rq st) (sq st ++ ss) (next_tid st) (unit_id st) (shutdowns st) in
+            let '(res, st1) := disconnect_bg st0 bg in
+            (show_disc_result res ++ s2l " sd=" ++ show_dec (shutdowns st1 - shutdowns st0), st1)
+        | _, _ => (err "disc", st)
+        end
+      else (err "op3", st)
   | _ => (err "oplen", st)
   end.
 
